@@ -84,15 +84,22 @@ def values_for(w, sg, tier):
 
 
 # ------------------------------------------------------------------------------------------ timing programs
-CONDS = ["x0", "c0", "nx0", "x1", "w", "k", "x", "xe2", "c1", "cnt"]
-TESTS = ["xn3", "x", "cn3", "kx", "x1", "nx0"]
+# names are interpreted by vf/ref/c20_ref.py (plain ints) and by build_timing in the check (amaranth expressions).
+# Multi-bit ones (MULTIBIT) are true / pass iff the value is NON-ZERO, whatever bit 0 is, whatever the sign:
+#   x (u2 input)  cnt (u2 register)  sg (s3 register)  xs = x.as_signed() (s2)  xpc = x + cnt (u3)  xmc = x - cnt (s3)
+#   xl1 = x << 1 (u3, bit 0 always clear)  xk12 = Cat(x, k)[1:3] (u2 slice)  sgs = sg[1:] (u2 slice of the signed register)
+MULTIBIT = ["x", "cnt", "sg", "xs", "xpc", "xmc", "xl1", "xk12", "sgs"]
+SIGNED_TESTS = ["sg", "xs", "xmc"]
+CONDS = ["x0", "c0", "nx0", "x1", "w", "k", "x", "xe2", "c1", "cnt", "xl1", "sg", "xmc"]
+# 16 entries: not a multiple of the 3 tests a hole consumes, so every kind of statement meets every test
+TESTS = ["xn3", "x", "cn3", "xl1", "kx", "sg", "x1", "xs", "nx0", "xpc", "cnt", "xmc", "xn3", "xk12", "kx", "sgs"]
 
 
 class _Ctr:
-    def __init__(self, rot):
+    def __init__(self, rot, trot=0):
         self.leaf = 0
         self.c = rot
-        self.t = rot
+        self.t = rot + trot
 
     def cond(self):
         self.c += 1
@@ -153,7 +160,7 @@ def form(name, bodies, ctr):
 
 def program(outer, nest_at, inner, rot, reg_hole=0):
     """outer form; hole `nest_at` (or None) additionally contains the form `inner` between its prints"""
-    ctr = _Ctr(rot)
+    ctr = _Ctr(rot, trot=reg_hole)      # the design index also rotates the Assert / Cover / Assume tests
     bodies = []
     for h in range(HOLES[outer]):
         body = hole(ctr, reg=(h == reg_hole % HOLES[outer]))
